@@ -177,7 +177,7 @@ def lookup_workload(res, ctx, rng, arities):
                                  f'unrelated records between chunks {cls} {L}B')
             res.count('chunks_' + str(min(len(seq), 6)))
             # (b) inside path-taking syscalls (rotating over all discovered decoders), (d) 1..6 lookups
-            for rep in range(ctx.pick(2, 6)):
+            for rep in range(ctx.pick(2, 40)):
                 name = names[(L * 3 + rep + (0 if cls == 'ascii' else 1)) % len(names)]
                 n = rng.choice((1, 1, 2, 2, 3, 6))
                 texts = [text] + [ascii_text(rng.randrange(0, 185), s + 2) if rng.random() < 0.7 else
@@ -212,7 +212,7 @@ def trace_domain_unrelated(rng):
 
 def string_workload(res, ctx, rng):
     idx = 0
-    for L in range(0, 201):
+    for L in list(range(0, 201)) + [239, 240, 241, 255, 256, 257, 400, 511, 512, 513]:
         for cls in ('ascii', 'straddle'):
             idx += 1
             if not ctx.mine(idx):
@@ -294,6 +294,66 @@ def string_workload(res, ctx, rng):
                     res.count('names_compared')
 
 
+def reuse_workload(res, ctx, rng):
+    """One parser, as in a real dump: vnode ids, string ids and thread names are re-used with other texts later in the
+    stream (ids are recycled); every item must carry its own text, consumers the most recent announcement."""
+    for _ in range(ctx.pick(30, 3000)):
+        parser = ev.new_parser()
+        ts = [1000]
+
+        def feed(seq, tid=9):
+            out = []
+            events = H.materialize(H.on_thread(tid, seq), t0=ts[0])
+            ts[0] = events[-1].timestamp + 7
+            for e in events:
+                t = parser.feed(e)
+                if t is not None:
+                    out.append(t)
+            return events, out
+        vn = rng.randrange(1, 1 << 40)
+        sid = rng.randrange(1, 1 << 30)
+        history = []
+        try:
+            for round_ in range(rng.randrange(2, 6)):
+                L = rng.choice((0, 1, 23, 24, 25, 56, 57, 88, 120, 184))
+                text = ascii_text(L, round_) if rng.random() < 0.6 else straddling_text(L, 24, round_)
+                events, traces = feed(H.gen_syscall(rng, rng.choice(H.ONE_PATH_CALLS), H.lookup(vn, text)))
+                history += events
+                got = [(t.path, t.vnode_id) for t in traces if type(t).__name__ == 'VfsLookup']
+                res.case(('reuse-vnode', vn, text))
+                if got != [(text.decode(), vn)]:
+                    res.violation('c08-recycled-vnode-id', f'round {round_}: vnode id {vn} looked up again with another path: '
+                                  f'{got} expected {[(text.decode(), vn)]}', case_of(history))
+                    return
+                outer = [t for t in traces if type(t).__name__ != 'VfsLookup']
+                if text and (len(outer) != 1 or text.decode() not in quoted(str(outer[0]))):
+                    res.violation('c08-recycled-vnode-id', f'round {round_}: enclosing call shows {[str(o) for o in outer]}, '
+                                  f'path is {text.decode()!r}', case_of(history))
+                    return
+                gtext = ascii_text(rng.choice((1, 15, 16, 17, 48, 49, 100, 200)), round_ + 7)
+                events, traces = feed(H.global_string(sid, gtext) + H.dlopen(sid))
+                history += events
+                dl = [t for t in traces if type(t).__name__ == 'Dlopen']
+                res.case(('reuse-string', sid, gtext))
+                if len(dl) != 1 or dl[0].path != gtext.decode() or parser.global_strings.get(sid) != gtext.decode():
+                    res.violation('c08-reannounced-string-id', f'round {round_}: string id {sid} announced again as '
+                                  f'{gtext.decode()!r}: consumer shows {[d.path for d in dl]}', case_of(history))
+                    return
+                name = ascii_text(rng.choice((1, 31, 32, 33, 63)), round_ + 3)
+                events, traces = feed(H.thread_name(name) + [H.A('TRACE_DATA_THREAD_TERMINATE', H.NONE, (9, 0, 0, 0))])
+                history += events
+                term = [t for t in traces if type(t).__name__ == 'TraceDataThreadTerminate']
+                res.case(('reuse-name', name))
+                if parser.tids_names.get(9) != name.decode() or not term or term[-1].name != name.decode():
+                    res.violation('c08-renamed-thread', f'round {round_}: thread renamed to {name.decode()!r}: table holds '
+                                  f'{parser.tids_names.get(9)!r}', case_of(history))
+                    return
+                res.count('reuse_rounds')
+        except Exception as x:
+            res.violation(f'c08-raises-{core.exc_name(x)}', f'reuse workload: {x!r}', case_of(history))
+            return
+
+
 def run(ctx):
     res = core.Result()
     rng = ctx.rng
@@ -305,6 +365,7 @@ def run(ctx):
         arities = {n: None for n in H.ONE_PATH_CALLS + H.TWO_PATH_CALLS + H.NO_GUARD_CALLS}
     lookup_workload(res, ctx, rng, arities)
     string_workload(res, ctx, rng)
+    reuse_workload(res, ctx, rng)
     if ctx.shard == 0:
         t = straddling_text(60, 24)
         res.sample({'text': t.decode(), 'bytes': len(t), 'chunks': [(q, d.hex()) for q, d in wire.lookup_chunks(7, t)]})
@@ -315,6 +376,7 @@ def run(ctx):
     res.require('strings_compared', 10)
     res.require('names_compared', 10)
     res.require('enclosing_calls_compared', 10)
+    res.require('reuse_rounds', 10)
     return res
 
 
